@@ -56,6 +56,26 @@ CHECKS = {
             "TLC runs the balance recognisers (string-expression nesting, datalines triple, label colon, "
             "built-in call parenthesis) on every result, with truncations of all inputs.",
             "TLA+ trace monitoring (TraceMon/Props)"),
+    "C15": ("model_checking", "8 C15",
+            "TLC evaluates the composition relation (spec/Rel.tla C15_*) on (lex(A+B), lex(A), lex(B)) for prefixes A that the "
+            "recorded end-of-input configuration (hook snapshot) shows to be closed, and continuations B from fragments, soup "
+            "and corpus.",
+            "TLA+ relational trace checking (TraceMon/Rel)"),
+    "C16": ("model_checking", "8 C16",
+            "TLC compares lex(s) with lex(case variant of s): all 2^n variants of every keyword, mnemonic, suffix, hex/exponent "
+            "letter and datalines keyword in context templates, plus random case mangling of other inputs.",
+            "TLA+ relational trace checking (TraceMon/Rel)"),
+    "C17": ("model_checking", "8 C17",
+            "TLC checks the +3/+1 shift relation between lex(s) and lex(BOM+s) for every input of the run.",
+            "TLA+ relational trace checking (TraceMon/Rel)"),
+    "C18": ("model_checking", "8 C18",
+            "The same tree is built with and without the macro_sep feature; TLC checks erase-equality, the error index map and "
+            "the MacroSep placement rule on every input.",
+            "TLA+ relational trace checking (TraceMon/Rel), two feature builds"),
+    "C19": ("model_checking", "8 C19",
+            "Debug, release, nightly-toolchain and hook-free builds, 16 concurrent threads (all cases on all threads) and "
+            "reversed call order are compared by TLC (C19_same, C19_events); thread schedules are sampled, not enumerated.",
+            "TLA+ relational trace checking (TraceMon/Rel) across builds/threads/histories"),
 }
 
 NOT_BUILT = {}
